@@ -1,6 +1,7 @@
 package checks
 
 import (
+	"strings"
 	"fmt"
 	"math/rand"
 	"testing"
@@ -119,9 +120,18 @@ func TestC04(t *testing.T) {
 	r := rt.Start(t, "C04")
 	wls := []Workload{wlExhaustion, wlTrafficClean, wlTrafficBroker, wlBrokerBurst}
 	runWorkloads(t, r, wls, func(g *GWRun) ([]monitors.V, int) {
-		return monitors.C04(g.Items, toPredef(g.Cfg.Predefined))
+		vs, n := monitors.C04(g.Items, toPredef(g.Cfg.Predefined))
+		// "never later denotes a different topic name" is also observable from the other side: a client PUBLISH
+		// with a TopicID the gateway handed out must be forwarded under the name it was handed out for
+		c01, _ := monitors.C01(g.Items, toPredef(g.Cfg.Predefined))
+		for _, v := range c01 {
+			if strings.HasPrefix(v.Sig, "forward-differs|topic|tit=0") {
+				vs = append(vs, monitors.V{Prop: "C04", Sig: "handed-out-id-denotes-other-name|" + v.Sig, What: "a TopicID the gateway handed out denotes another name now: " + v.What, Seq: v.Seq})
+			}
+		}
+		return vs, n
 	})
-	r.Finish("workload exhaustion: one session per predefined layout drives 65534 - |predefined| allocations with non-wildcard SUBSCRIBEs (lock-step every 4096), then 60 further REGISTER / SUBSCRIBE / broker-PUBLISH events of new names interleaved with re-registrations of old names; plus traffic-clean/broker and broker-burst. Oracle C04: the relation id -> name over everything the gateway handed out (REGACK, SUBACK, its own REGISTER) is a function, ids in 1..0xFFFE, never a predefined ID visible to the client, and once an allocation was refused every later new name is refused too. "+trafficRule, nil)
+	r.Finish("workload exhaustion: one session per predefined layout drives 65534 - |predefined| allocations with non-wildcard SUBSCRIBEs (lock-step every 4096), then 60 further REGISTER / SUBSCRIBE / broker-PUBLISH events of new names interleaved with re-registrations of old names; plus traffic-clean/broker and broker-burst. Oracle C04: the relation id -> name over everything the gateway handed out (REGACK, SUBACK, its own REGISTER) is a function, ids in 1..0xFFFE, never a predefined ID visible to the client, and once an allocation was refused every later new name is refused too; a client PUBLISH with a handed-out (registered-type) TopicID is forwarded under the name the ID was handed out for. "+trafficRule, nil)
 }
 
 var _ = mqttref.CONNECT
